@@ -299,7 +299,7 @@ Let R := R fl input.
 Fixpoint lowerso (o : op) (r : re) {struct o} : Prop :=
   match o with
   | OAtom cs => unnc r = RSeq (map RChar cs) \/ (exists c, cs = [c] /\ unnc r = RChar c)
-  | OCls set => exists pr, leaf_pred ci fl (unnc r) = Some pr /\ forall c, mem set c = pr c
+  | OCls set => exists pr, leaf_pred ci fl (unnc r) = Some pr /\ forall c, In c input -> mem set c = pr c
   | OBol => unnc r = RBol
   | OEol => unnc r = REol
   | ONothing | OEnd => unnc r = RSeq []
@@ -390,7 +390,7 @@ Proof.
       intros je _. reflexivity.
   - (* Cls *) unfold Rop; cbn [EngineFacts.Rop]; fold n.
     destruct Hl as (pr & Hpr & Hmem). rewrite (leaf_R input ci fl Hci _ _ _ _ Hpr). unfold one_charR, char_at.
-    destruct (nth_error input p) as [c|]; [|reflexivity]. rewrite Hmem. destruct (pr c); reflexivity.
+    destruct (nth_error input p) as [c|] eqn:Ec; [|reflexivity]. rewrite (Hmem c (nth_error_In _ _ Ec)). destruct (pr c); reflexivity.
   - (* Capture *) unfold Rop; cbn [EngineFacts.Rop]; fold n.
     destruct Hl as (r' & Hr & Hl). rewrite Hr. destruct Hpl as [Hpl _].
     cbn [Sem.R]. rewrite map_map. cbn [fst]. apply IHo; auto.
@@ -451,7 +451,7 @@ Qed.
 Theorem fragmentq_selected_match prog input fl o r s :
   p_op prog = make_sequence o OEnd ->
   plaino input (p_case prog) (p_multi prog) (p_hasbackrefs prog) (p_maxparens prog) o ->
-  lowerso (p_case prog) fl o r -> s_i fl = p_case prog -> s_m fl = p_multi prog ->
+  lowerso input (p_case prog) fl o r -> s_i fl = p_case prog -> s_m fl = p_multi prog ->
   (N.of_nat (length input) < umax)%N ->
   (p_hasbol prog = false /\ p_minlen prog = 0%N /\ p_prefix prog = None /\ p_icc prog = None /\ p_pre prog = []) ->
   length (sb s) = length (eb s) ->
